@@ -260,6 +260,77 @@ def check_publish(chk, prog):
     chk.floor(R, n, 1, "ParallelVecWriter functions that reserve and write")
 
 
+# (owner type suffix, atomic operation) -> (minimum ordering, reason). Only hand-over points whose ordering is NECESSARY are
+# listed; flags and id counters (stop_match, Counters, MatchCounter, TableIdentity, NotificationState) carry no data and are free.
+ORDERING_TABLE = {
+    ("concurrent_vec::ConcurrentVec", "store"): ("Release", "publishes the slot written by push_at: a reader that sees the new head dereferences the slot"),
+    ("concurrent_vec::ConcurrentVec", "load"): ("Acquire", "pairs with the Release store of head before slots below it are dereferenced"),
+    ("notification::Notification", "store"): ("Release", "notify() is the hand-over of ReadOptimizedLock (writer -> waiting readers, last reader -> writer): what happened before it must be visible after wait()"),
+    ("notification::Notification", "load"): ("Acquire", "pairs with notify()'s Release store"),
+    ("threadpool::AtomicCounts", "fetch_add"): ("AcqRel", "complete_one: every job's writes must happen-before the scope's return; the completions form one release sequence that the last completer acquires"),
+}
+SATISFIES = {
+    "Release": ("Release", "AcqRel", "SeqCst"),
+    "Acquire": ("Acquire", "AcqRel", "SeqCst"),
+    "AcqRel": ("AcqRel", "SeqCst"),
+}
+
+
+def _orderings(f, c):
+    out = []
+    for a in c.args[1:]:
+        for o in f.origins(a):
+            if o[0] == "agg" and str(o[2]).endswith("atomic::Ordering"):
+                out.append(o[3])
+            elif o[0] == "const" and "Ordering::" in str(o[1]):
+                out.append(str(o[1]).rsplit("::", 1)[-1])
+    return out
+
+
+def check_orderings(chk, prog):
+    R = chk.rule("R-ORDERINGS", "memory orderings at the hand-over points are not weaker than the frozen table (owner type, atomic operation) -> minimum ordering: "
+                 "ConcurrentVec.head store >= Release / load >= Acquire; Notification flag store >= Release / load >= Acquire; AtomicCounts fetch_add >= AcqRel; "
+                 "ReadOptimizedLock::read issues fence(>= Acquire) between observing the ReadOk token and handing out the shared reference. Stronger orderings pass")
+    from ..util import _head
+    from .join_common import cross_origins
+    seen = {}
+    for f in prog.lib_fns(["egglog_concurrency"]):
+        for c in f.calls:
+            if "sync::atomic::Atomic" not in c.p or c.p.endswith("::new") or not c.args:
+                continue
+            op = c.p.rsplit("::", 1)[-1]
+            owners = set()
+            for fn_name, o in cross_origins(prog, f, c.args[0]):
+                if o[0] == "param":
+                    g = prog.fns[fn_name]
+                    owners.add(_head(g.locals[o[1]]))
+            for ow in owners:
+                for (suffix, top), (need, why) in ORDERING_TABLE.items():
+                    if ow.endswith(suffix) and op == top:
+                        got = _orderings(f, c)
+                        ok = bool(got) and got[0] in SATISFIES[need]
+                        seen[(suffix, top)] = seen.get((suffix, top), 0) + 1
+                        chk.judge(ok, R, f"{f.root or f.name}:{op}", f"{op} is {got[0] if got else '?'} (needs >= {need})",
+                                  f"{op} on {suffix.rsplit('::', 1)[-1]} uses ordering {got} but needs at least {need}: {why}", c.loc)
+    for key in ORDERING_TABLE:
+        if key not in seen:
+            chk.missing(R, f"atomic {key[1]} on {key[0]}")
+    # the fence in ReadOptimizedLock::read
+    rd = prog.need(CC + "ReadOptimizedLock::read")
+    fences = [c for c in rd.calls if c.p.endswith("atomic::fence")]
+    okf = False
+    for c in fences:
+        got = []
+        for o in rd.origins(c.args[0]):
+            if o[0] == "agg":
+                got.append(o[3])
+        builds = [i for i, j, s in rd.assigns() if s[2][0] == "agg" and s[2][1] == "adt" and str(s[2][2]).endswith("MutexReader")]
+        if got and got[0] in SATISFIES["Acquire"] and builds and all(rd.dominates(c.bb, b) for b in builds):
+            okf = True
+    chk.judge(okf, R, "ReadOptimizedLock::read:fence", "an Acquire fence separates observing ReadOk from handing out &T",
+              "ReadOptimizedLock::read hands out the shared reference without an Acquire fence after observing the ReadOk token: a reader may see the data as it was before the writer's unlock", rd.loc)
+
+
 def run(chk, prog, tier):
     chk.explanation = EXPLANATION
     chk.assumptions = ["rustc nightly MIR construction", "unwinding out of the job closure is excluded by catch_unwind (checked), other unwind paths are not part of 'every path'"]
@@ -268,3 +339,4 @@ def run(chk, prog, tier):
     check_scope(chk, prog)
     check_lock(chk, prog)
     check_publish(chk, prog)
+    check_orderings(chk, prog)
